@@ -85,6 +85,17 @@ class SearchLoop:
     def use_kinds(self, e: ast.AST) -> Tuple[Set[str], List[ast.AST]]:
         """Index-space kinds of the source-index names inside expression e."""
         kinds, strides = set(), []
+        # the index may be built in place: `(arange(0, W*N, W).unsqueeze(1) + src).flatten()`
+        ve = e
+        while isinstance(ve, ast.Call) and isinstance(ve.func, ast.Attribute) and ve.func.attr in ("flatten", "view", "reshape", "contiguous"):
+            ve = ve.func.value
+        if isinstance(ve, ast.BinOp) and isinstance(ve.op, ast.Add):
+            for a, b in ((ve.left, ve.right), (ve.right, ve.left)):
+                ar = _find_arange(a)
+                if ar is not None and isinstance(b, ast.Name):
+                    ks = {self.index_kind(x)[0] for x in self.rd.defs_of(b)}
+                    if ks == {"local"}:
+                        return {"flat"}, [ar]
         for n in ast.walk(e):
             if isinstance(n, ast.Name) and isinstance(n.ctx, ast.Load):
                 for d in self.rd.defs_of(n):
@@ -318,7 +329,17 @@ def finished_mass_on_eos(ctx, f, clause: str, floor: int = 1):
             else:
                 conj.append(strip_shape(x))
         flat(e)
-        oh = [s for s in conj if any(isinstance(x, ast.Call) and u(x.func).endswith("one_hot") for x in ast.walk(s))]
+        def _is_onehot(s_):
+            if any(isinstance(x, ast.Call) and u(x.func).endswith("one_hot") for x in ast.walk(s_)):
+                return True
+            # a named one-hot vector, possibly with a placeholder definition on the branch where there is no eos
+            if isinstance(s_, ast.Name):
+                o_ = inl.orig.get(id(s_), s_)
+                # (its own definitions only: through the loop everything derives from everything)
+                return any(d_.value is not None and any(isinstance(x, ast.Call) and u(x.func).endswith("one_hot") for x in ast.walk(d_.value))
+                           for d_ in rd.defs_of(o_))
+            return False
+        oh = [s for s in conj if _is_onehot(s)]
         rest = [s for s in conj if s not in oh]
         if len(rest) == 1 and isinstance(rest[0], ast.Name) and len(oh) <= 1:
             return inl.orig.get(id(rest[0]), rest[0]), bool(oh)
